@@ -8,7 +8,7 @@
 (* the configuration; then each request is three steps - Mode chooses between any request and   *)
 (* one "near" the previous request (same host+method+path concatenation: other headers, other   *)
 (* client, or a colliding host/method split; or only the host differs - the histories the cache  *)
-(* is sensitive to), Pick(q)                                                                     *)
+(* is sensitive to; or only the method differs), Pick(q)                                         *)
 (* only remembers the choice (cheap successors), Do performs HttpRouter!Request(q) (one         *)
 (* successor).                                                                                   *)
 (*                                                                                              *)
@@ -20,14 +20,18 @@ EXTENDS HttpRouter_MC, Json
 
 CONSTANTS GenTemplates, GenShells, GenServerFilters, GenPlans
 
-VARIABLES out, plan, started, pend, mode
+VARIABLES out, plan, started, pend, mode, purges
 
-gvars == <<vars, out, plan, started, pend, mode>>
+gvars == <<vars, out, plan, started, pend, mode, purges>>
+
+(* purges per behaviour: the simulator takes every enabled step with the same probability, so  *)
+(* an unbounded purge would empty the cache after every other request and hits would be rare    *)
+MaxPurges == 1
 
 GInit == /\ plan \in GenPlans
          /\ \E sf \in GenServerFilters : cfg = MkCfg(sf, <<>>, <<>>)
          /\ cache = EmptyCache /\ cache0 = EmptyCache /\ n = 0 /\ last = [a |-> "cfg"]
-         /\ started = FALSE /\ pend = <<>> /\ mode = ""
+         /\ started = FALSE /\ pend = <<>> /\ mode = "" /\ purges = 0
          /\ out = ""
 
 NR == Len(cfg.rules)
@@ -36,7 +40,7 @@ Built == NR = Len(plan) /\ RuleFull
 
 NewRule == /\ ~started /\ RuleFull /\ NR < Len(plan)
            /\ \E s \in GenShells : cfg' = [cfg EXCEPT !.rules = Append(@, MkRule(NR + 1, s, <<>>))]
-           /\ UNCHANGED <<cache, cache0, n, last, plan, started, pend, mode>>
+           /\ UNCHANGED <<cache, cache0, n, last, plan, started, pend, mode, purges>>
            /\ out' = ""
 
 AddEntry == /\ ~started /\ ~RuleFull
@@ -44,35 +48,38 @@ AddEntry == /\ ~started /\ ~RuleFull
                  LET j == Len(cfg.rules[NR].paths) + 1
                      e == [t EXCEPT !.backend = IF t.backend = "MISSING" THEN XName[NR][j] ELSE BName[NR][j]]
                  IN cfg' = [cfg EXCEPT !.rules[NR].paths = Append(@, e)]
-            /\ UNCHANGED <<cache, cache0, n, last, plan, started, pend, mode>>
+            /\ UNCHANGED <<cache, cache0, n, last, plan, started, pend, mode, purges>>
             /\ out' = ""
 
 Start == /\ ~started /\ Built
          /\ started' = TRUE
          /\ out' = ToJson([a |-> "cfg", cfg |-> cfg])
-         /\ UNCHANGED <<vars, plan, pend, mode>>
+         /\ UNCHANGED <<vars, plan, pend, mode, purges>>
 
 Cat(q) == q.host \o q.m \o q.path
-NearSet(p) == {q \in Reqs : q # p /\ (Cat(q) = Cat(p) \/ (q.m = p.m /\ q.path = p.path /\ q.hdr = p.hdr /\ q.ip = p.ip))}
+NearSet(p) == {q \in Reqs : q # p /\ \/ Cat(q) = Cat(p)
+                                     \/ q.m = p.m /\ q.path = p.path /\ q.hdr = p.hdr /\ q.ip = p.ip
+                                     \/ q.host = p.host /\ q.path = p.path /\ q.hdr = p.hdr /\ q.ip = p.ip}
 
 Mode == /\ started /\ pend = <<>> /\ mode = "" /\ n < MaxReqs
         /\ \/ mode' = "any"
            \/ last.a = "req" /\ NearSet(last.q) # {} /\ mode' = "near"
         /\ out' = ""
-        /\ UNCHANGED <<vars, plan, started, pend>>
+        /\ UNCHANGED <<vars, plan, started, pend, purges>>
 
 Pick == /\ started /\ pend = <<>> /\ mode # ""
         /\ \E q \in (IF mode = "near" THEN NearSet(last.q) ELSE Reqs) : pend' = <<q>>
         /\ out' = ""
-        /\ UNCHANGED <<vars, plan, started, mode>>
+        /\ UNCHANGED <<vars, plan, started, mode, purges>>
 
 Do == /\ started /\ pend # <<>>
       /\ Request(pend[1])
       /\ pend' = <<>> /\ mode' = ""
       /\ out' = ToJson(last')
-      /\ UNCHANGED <<plan, started>>
+      /\ UNCHANGED <<plan, started, purges>>
 
-GPurge == /\ started /\ pend = <<>> /\ mode = "" /\ Purge
+GPurge == /\ started /\ pend = <<>> /\ mode = "" /\ purges < MaxPurges /\ n >= 2 /\ Purge
+          /\ purges' = purges + 1
           /\ out' = ToJson(last')
           /\ UNCHANGED <<plan, started, pend, mode>>
 
@@ -84,5 +91,6 @@ PlansBig == {<<2>>, <<3>>, <<1, 2>>, <<2, 1>>, <<2, 2>>, <<3, 1>>, <<1, 1, 1>>, 
 PlansHdrFocus == {<<2>>, <<1, 1>>, <<3>>}
 PlansFilterFocus == {<<2>>, <<3>>, <<2, 1>>, <<1, 2>>}
 PlansRuleFocus == {<<0, 1>>, <<1, 1>>, <<0, 2>>}
+PlansMethFocus == {<<2>>, <<3>>, <<1, 1>>, <<0, 2>>}
 PlansC12 == {<<1>>, <<2>>, <<1, 1>>, <<2, 1>>, <<1, 2>>, <<0, 1>>, <<0, 2>>, <<3>>}
 =============================================================================
